@@ -43,6 +43,8 @@ def make_code(rng, ctx):
         for _ in range(rng.randint(1, 4)):
             lvl = b'=' * rng.choice((0, 0, 1, 2))
             body = rng.choice((b'\n\ntext', b'\n\n\n', b'\r\n\r\nx', b'\nx', b'x\n\ny', b']' + b'x', b'a]]b' if lvl else b'ab', b'\x8e\n\x97',
+                               # (inner lines that look like comments of their own)
+                               b'off\n-- hud\n', b'\n  -- indented\n// too\n', b'a\n--[[ b\nc',
                                # (text ending in a bracket, as serialised tables do: the closing level is what keeps it apart)
                                b'{1,2,[3,4]' if lvl else b'{1,2,[3,4] ', b't[i]' if lvl else b't[i', b'x]=]' if len(lvl) == 2 else b'x=',
                                b']' if lvl else b'[', b'a[[b]' if lvl else b'a[[b'))
